@@ -311,6 +311,11 @@ def kill_pool():
     _pool = None
 
 
+def _slack():
+    from .smt import slack
+    return slack()
+
+
 def find_cofactors_multi(goals, hyps, budget=6.0):
     """For each goal search c != 0 (mod p) and integer-coefficient q_i with  c*goal = sum q_i*hyps_i.
     Untrusted (tracked Buchberger in gbcert.py, run in a worker process): the caller re-checks every
@@ -334,7 +339,7 @@ def find_cofactors_multi(goals, hyps, budget=6.0):
         return d
     try:
         fut = pool().submit(membership_multi, [conv(g) for g in goals], [conv(h) for h in hyps], names, budget)
-        allres = fut.result(timeout=budget * 3 + 10)
+        allres = fut.result(timeout=(budget * 3 + 10) * _slack())
     except Exception:
         return [None] * len(goals)
     out = []
